@@ -33,18 +33,21 @@ TraceLog == ndJsonDeserialize(IOEnv.VERIF_TRACE)
 
 VARIABLES l, mode, stopped,
           handed,    \* [Dev -> SUBSET Int] counters of the envelopes handed to callers
+          top, low,  \* [Dev -> Int] largest / smallest counter handed out so far (-1: none)
           floor,     \* [Thr -> Int] largest counter handed out when the thread's current call began
           mustOpen,  \* SUBSET (Dev \X Dev \X Int): <<store, device, counter>> that must open from now on
           lastCk,    \* [Dev -> [Dev -> Int]] last chain-key counter recorded as stored
           keys       \* [Dev -> record] keys observed through the API (0 = not yet)
-mvars == <<l, mode, stopped, handed, floor, mustOpen, lastCk, keys>>
+mvars == <<l, mode, stopped, handed, top, low, floor, mustOpen, lastCk, keys>>
 
 Ev == TraceLog[l]
 Consume(e) == l <= Len(TraceLog) /\ Ev.ev = e /\ l' = l + 1
 SetOf(s) == {s[i] : i \in DOMAIN s}
 Max(S) == CHOOSE x \in S : \A y \in S : y <= x
-Min(S) == CHOOSE x \in S : \A y \in S : x <= y
-Top(d) == IF handed[d] = {} THEN -1 ELSE Max(handed[d])
+Top(d) == top[d]
+Hand(d, k) == /\ handed' = [handed EXCEPT ![d] = @ \cup {k}]
+              /\ top' = [top EXCEPT ![d] = IF k > @ THEN k ELSE @]
+              /\ low' = [low EXCEPT ![d] = IF @ = -1 \/ k < @ THEN k ELSE @]
 
 NoKeys == [member |-> 0, device |-> 0, group |-> 0, acct |-> 0]
 Fields == {"member", "device", "group", "acct"}
@@ -64,6 +67,7 @@ Faithful == Ev.same /\ Ev.pdev /\ Ev.pk = Ev.x
 MReset == /\ Consume("reset")
           /\ mode' = Ev.mode /\ stopped' = FALSE
           /\ handed' = [d \in Dev |-> {}] /\ floor' = [t \in Thr |-> -1] /\ mustOpen' = {}
+          /\ top' = [d \in Dev |-> -1] /\ low' = [d \in Dev |-> -1]
           /\ lastCk' = [s \in Dev |-> [d \in Dev |-> -1]]
           /\ keys' = [s \in Dev |-> NoKeys]
 
@@ -71,60 +75,61 @@ CallCommon == /\ CkMono(Ev.s, Ev.muts)
               /\ lastCk' = [lastCk EXCEPT ![Ev.s] = CkAfter(Ev.s, Ev.muts)]
 
 MJoin == /\ Consume("join") /\ CallCommon
-         /\ UNCHANGED <<mode, stopped, handed, floor, mustOpen, keys>>
+         /\ UNCHANGED <<mode, stopped, handed, top, low, floor, mustOpen, keys>>
 MRegister == /\ Consume("register") /\ CallCommon
-             /\ UNCHANGED <<mode, stopped, handed, floor, mustOpen, keys>>
+             /\ UNCHANGED <<mode, stopped, handed, top, low, floor, mustOpen, keys>>
 MSeal == /\ Consume("seal") /\ CallCommon
          /\ Ev.ok => /\ Ev.k \notin handed[Ev.d]
                      /\ (~stopped => Ev.k > Top(Ev.d))
-         /\ handed' = IF Ev.ok THEN [handed EXCEPT ![Ev.d] = @ \cup {Ev.k}] ELSE handed
+         /\ IF Ev.ok THEN Hand(Ev.d, Ev.k) ELSE UNCHANGED <<handed, top, low>>
          /\ UNCHANGED <<mode, stopped, floor, mustOpen, keys>>
 MOpen == /\ Consume("open") /\ CallCommon
          /\ (<<Ev.s, Ev.d, Ev.x>> \in mustOpen /\ ~Ev.crashed) => Ev.ok
          /\ (mode = "c09" /\ Ev.x \in handed[Ev.d]) => Ev.ok
          /\ Ev.ok => Faithful
          /\ mustOpen' = IF Ev.ok THEN mustOpen \cup {<<Ev.s, Ev.d, Ev.x>>} ELSE mustOpen
-         /\ UNCHANGED <<mode, stopped, handed, floor, keys>>
+         /\ UNCHANGED <<mode, stopped, handed, top, low, floor, keys>>
 
 MCrash == /\ Consume("crash") /\ stopped' = TRUE
-          /\ UNCHANGED <<mode, handed, floor, mustOpen, lastCk, keys>>
+          /\ UNCHANGED <<mode, handed, top, low, floor, mustOpen, lastCk, keys>>
 MRestart == /\ Consume("restart")
-            /\ UNCHANGED <<mode, stopped, handed, floor, mustOpen, lastCk, keys>>
+            /\ UNCHANGED <<mode, stopped, handed, top, low, floor, mustOpen, lastCk, keys>>
 MProbes == /\ Consume("probes")
            /\ IF Ev.phase = "pre"
                 THEN mustOpen' = mustOpen \cup {<<Ev.s, p[1], p[2]>> : p \in SetOf(Ev.open)}
                 ELSE /\ \A m \in mustOpen : m[1] = Ev.s => <<m[2], m[3]>> \in SetOf(Ev.open)
                      /\ UNCHANGED mustOpen
-           /\ UNCHANGED <<mode, stopped, handed, floor, lastCk, keys>>
+           /\ UNCHANGED <<mode, stopped, handed, top, low, floor, lastCk, keys>>
 MKeys == /\ Consume("keys")
          /\ \A f \in Fields : keys[Ev.s][f] # 0 => Ev[f] = keys[Ev.s][f]
          /\ keys' = [keys EXCEPT ![Ev.s] = [f \in Fields |-> IF @[f] # 0 THEN @[f] ELSE Ev[f]]]
-         /\ UNCHANGED <<mode, stopped, handed, floor, mustOpen, lastCk>>
+         /\ UNCHANGED <<mode, stopped, handed, top, low, floor, mustOpen, lastCk>>
 
 \* ---- C09: calls of concurrent threads, datastore operations in the order of the wrapper's sequence number
 MTBegin == /\ Consume("tbegin") /\ floor' = [floor EXCEPT ![Ev.t] = Top(Ev.d)]
-           /\ UNCHANGED <<mode, stopped, handed, mustOpen, lastCk, keys>>
+           /\ UNCHANGED <<mode, stopped, handed, top, low, mustOpen, lastCk, keys>>
 MGet == /\ Consume("get")
-        /\ UNCHANGED <<mode, stopped, handed, floor, mustOpen, lastCk, keys>>
+        /\ UNCHANGED <<mode, stopped, handed, top, low, floor, mustOpen, lastCk, keys>>
 MPut == /\ Consume("put")
         /\ IsCk(Ev) => Ev.c >= lastCk[Ev.s][Ev.d]
         /\ lastCk' = IF IsCk(Ev) THEN [lastCk EXCEPT ![Ev.s][Ev.d] = Ev.c] ELSE lastCk
-        /\ UNCHANGED <<mode, stopped, handed, floor, mustOpen, keys>>
+        /\ UNCHANGED <<mode, stopped, handed, top, low, floor, mustOpen, keys>>
 MTRet == /\ Consume("tret")
          /\ Ev.ok   \* nothing stops a store in these runs: a failed SealEnvelope is not a behaviour of the property's domain
          /\ Ev.k \notin handed[Ev.d] /\ Ev.k > floor[Ev.t]
-         /\ handed' = [handed EXCEPT ![Ev.d] = @ \cup {Ev.k}]
+         /\ Hand(Ev.d, Ev.k)
          /\ UNCHANGED <<mode, stopped, floor, mustOpen, lastCk, keys>>
 
 MEnd == /\ Consume("end")
-        /\ ~stopped => \A d \in Dev : handed[d] = (IF handed[d] = {} THEN {} ELSE Min(handed[d])..Max(handed[d]))
+        /\ ~stopped => \A d \in Dev : Cardinality(handed[d]) = (IF handed[d] = {} THEN 0 ELSE top[d] - low[d] + 1)
         /\ mode = "c09" => \A d \in Dev : \A k \in handed[d] : <<"R", d, k>> \in mustOpen
-        /\ UNCHANGED <<mode, stopped, handed, floor, mustOpen, lastCk, keys>>
+        /\ UNCHANGED <<mode, stopped, handed, top, low, floor, mustOpen, lastCk, keys>>
 
 MNext == MReset \/ MJoin \/ MRegister \/ MSeal \/ MOpen \/ MCrash \/ MRestart \/ MProbes \/ MKeys
          \/ MTBegin \/ MGet \/ MPut \/ MTRet \/ MEnd
 MInit == /\ l = 1 /\ mode = "" /\ stopped = FALSE
          /\ handed = [d \in Dev |-> {}] /\ floor = [t \in Thr |-> -1] /\ mustOpen = {}
+         /\ top = [d \in Dev |-> -1] /\ low = [d \in Dev |-> -1]
          /\ lastCk = [s \in Dev |-> [d \in Dev |-> -1]]
          /\ keys = [s \in Dev |-> NoKeys] /\ TLCSet(42, 1)
 MSpec == MInit /\ [][MNext]_mvars
